@@ -97,9 +97,11 @@ var borrows = map[string][]borrow{
 	"C03": {
 		{"C17", "C17.R1|saveJob|the job id", "C03.R9", "a create request cannot touch another account's job: the id asked about is the id written (decided by the rule C17.R1)", 1},
 		{"C17", "C17.R1|AddNewJob|the job id", "C03.R9", "a create request cannot touch another account's job: the id asked about is the id written (decided by the rule C17.R1)", 1},
+		{"C18", "C18.R3|sale|the fee allowance is granted", "C03.R11", "a sale the client never signed must not make somebody an authorised signer for the client: the fee grant goes from the fee granter to the client (decided by the rule C18.R3)", 1},
 		{"C16", "C16.R5|validateCreateDenom|", "C03.R10", "a create request cannot re-create (and thereby take back) a denomination that exists: existence is asked for the very name being created (decided by the rule C16.R5)", 2},
 	},
 	"C04": {{"C07", "C07.R5|attestMessageWrapper|the message is removed on the cached context", "C04.R7", "a message leaves the queue together with its effects: it is removed on the cached context that carries them (decided by the rule C07.R5)", 1}},
+	"C09": {{"C14", "C14.R5|CheckAndProcessEstimatedMessages|a failing message", "C09.R5", "a value that cannot be processed is skipped with the rest of the block unaffected: a failing message does not end the estimate pass of its queue (decided by the rule C14.R5)", 1}},
 	"C13": {{"C04", "C04.R3|AddEvidence|", "C13.R4", "the 10 % floor counts each attesting validator once: a validator's evidence entry is replaced, never duplicated (VerifyEvidence adds a validator's shares once per entry); decided by the rule C04.R3", 1}},
 	"C16": {{"C03", "C03.R2|AnteHandle|", "C16.R9", "the admin check compares the admin with Metadata.Creator, which is only as good as the ante decorator that ties the creator of each message to that message's signers or grantees (decided by the rule C03.R2)", 2}},
 	"C15": {
